@@ -141,6 +141,25 @@ def front_one(case):
     return K.run_paths(f"C13/gmres[{case}]", FN + "gmres", thunk, dict(engine="GMRES", part="front", case=case))
 
 
+def pad_one():
+    """Lemma over the contract that fwd_one ties to the code (y solves (H^H H + diag(pad)) y = beta H^H e1 with pad_j = [max_i |H_ij| < 10 tol max|H|], y_j := 0 where
+    pad_j): this is the residual minimiser over the columns that were run ONLY IF a padded column is a zero column (then row and column j of H^H H vanish and the
+    system decouples).  Obligation: pad_j implies column j of H is zero -- for every tolerance."""
+    t0 = time.time()
+    cm, am, tol = z3.Real("colmax_j"), z3.Real("max_abs_H"), z3.Real("tol")
+    facts = [cm >= 0, am >= cm, tol >= 0]
+    goal = z3.Implies(cm < 10 * tol * am, cm == 0)
+    res = alg.prove(facts, goal, 4000)
+    ok = res["status"] == "unsat"
+    ob = Ob(key="C13/gmres_fwd/the padding of the small least-squares problem acts only on zero columns of H (steps that were not run), for every tolerance",
+            fn=FN + "gmres_fwd", clause="padded columns are zero columns", engine="IDX", status=DISCHARGED if ok else FAILED, backend="z3 (nonlinear real arithmetic)",
+            secs=time.time() - t0, detail="unsat" if ok else f"{res['status']}: e.g. tol = 0.05, max|H| = 100, a genuine column with largest entry 1 is padded")
+    ob.smt = f"(assert (not {goal.sexpr()}))"
+    if not ok:
+        ob.witness = dict(engine="GMRES", part="pad")
+    return [ob]
+
+
 def run(chk):
     chk.level = "proof"
     from props import alg_forwarding
@@ -156,7 +175,8 @@ def run(chk):
                ("PROVED in Lean 4 / Mathlib from the contract (lemmas/Theorems.lean: T_gmres_optimal; T_gmres_le_initial: never above the initial residual; "
                 "T_gmres_exact: zero once the space contains a solution; recorded in lemmas/lean_checked.json, lean is not run by the check).  Not formalised: the "
                 "columns of steps that were not run (zero columns of H: the regularised system forces y_j = 0 there and the other rows are the normal equations "
-                "of the leading block, to which the theorem applies), and that range(Q_m) is the Krylov space K_m (C15)"
+                "of the leading block, to which the theorem applies -- that a padded column IS a zero column is the obligation 'the padding acts only on zero columns', "
+                "known finding C13-pad-threshold), and that range(Q_m) is the Krylov space K_m (C15)"
                 if lean else "ASSUMED, not formalised") +
                "; the consequences are also sampled by the bounded stand-in on the real code")
     chk.assume("product count: the statement's 'm products' is read as the products of the Krylov process; the initial residual b - A x0 costs one more for every x0")
@@ -171,6 +191,8 @@ def run(chk):
     for obs in pmap(work, len(tasks)):
         for ob in obs:
             chk.add(ob)
+    for ob in pad_one():
+        chk.add(ob)
     bounded(chk)
 
     def replayer(ob):
